@@ -7,6 +7,15 @@ immediately followed by a `size_t <size>` parameter.  For each, every statement 
 mentions <dst> is classified into the shapes of RimeModel.C20.Stmt; calls to a local helper
 `h(dst, src, size)` are inlined from the helper's own body.  Anything not understood becomes
 `.unknown` (fails closed).  An independent count (grep of `size_t buffer_size`) is asserted.
+
+Fail-closed sweep (`stray_copies`): EVERY call of a copy primitive (strcpy/strncpy/memcpy/snprintf/
+std::string::copy/... and the local helpers) anywhere in the two files must be accounted for: it writes
+to the destination parameter of an extracted site or helper (then it is one of the classified
+statements), or it is the API's own "allocate exactly, then copy" idiom
+(`D = new char[E.length() + 1]; strcpy(D, E.c_str());` in the same function).  Any other copy — into a
+struct field supplied by the caller, through an alias, in a function whose buffer/size parameters
+have another shape — and any function with a non-const `char*` parameter that is not an extracted
+site become an extra site with the single statement `.unknown`, so `C20.site_ok` cannot be proved.
 """
 import os, re, sys, json
 sys.path.insert(0, os.path.dirname(os.path.abspath(__file__)))
@@ -131,7 +140,104 @@ def extract(repo):
             continue
         sites.append({"fn": name, "file": f, "line": line, "dst": dst, "size": size,
                       "stmts": site_stmts(body, dst, size, helpers)})
+    EXTRACTED["site_dst"] = {s["fn"]: s["dst"] for s in sites}
+    EXTRACTED["helper_dst"] = {h: v[0] for h, v in helpers.items()}
     return sites, raw, len(helpers)
+
+
+EXTRACTED = {}
+
+COPY_PRIMS = (r"strcpy|strncpy|stpcpy|stpncpy|strlcpy|strcat|strncat|strlcat|memcpy|memmove|mempcpy|memccpy|bcopy|"
+              r"sprintf|snprintf|vsprintf|vsnprintf|wcscpy|wcsncpy|wmemcpy|copy|copy_n|copy_backward|strxfrm|swab|strdup_into")
+
+
+def nows(t):
+    return re.sub(r"\s+", "", t)
+
+
+def call_args(text, p_open):
+    """top-level comma split of the argument list whose '(' is at p_open"""
+    close = match_brace(text, p_open, "(", ")")
+    if close < 0:
+        return None
+    args, depth, cur = [], 0, ""
+    for ch in text[p_open + 1:close]:
+        if ch in "([{":
+            depth += 1
+        elif ch in ")]}":
+            depth -= 1
+        if ch == "," and depth == 0:
+            args.append(cur.strip())
+            cur = ""
+        else:
+            cur += ch
+    args.append(cur.strip())
+    return args
+
+
+def stray_copies(repo, site_dst, helper_dst):
+    """-> list of (file, line, function, text) for copies that no extracted site accounts for.
+    site_dst / helper_dst : {function name: destination parameter}"""
+    stray = []
+    names = "|".join(sorted(set(COPY_PRIMS.split("|")) | set(helper_dst)))
+    call = re.compile(r"(?<![\w.>])(?:std::|::)?(%s)\s*\(|(?:\.|->)\s*(copy)\s*\(" % names)
+    for f in FILES:
+        src = open(os.path.join(repo, f)).read()
+        nc = strip_cpp_comments(src)
+        spans = []
+        for name, params, body, line in functions(src):
+            start = 0
+            for _ in range(line - 1):
+                start = nc.find("\n", start) + 1
+            i = nc.find(body, start)
+            if i >= 0:
+                spans.append((i, i + len(body), name, params, body))
+        def enclosing(pos):
+            best = None
+            for a, b, name, params, body in spans:
+                if a <= pos < b and (best is None or (b - a) > (best[1] - best[0])):
+                    best = (a, b, name, params, body)       # the outermost definition: the API function itself
+            return best
+        for m in call.finditer(nc):
+            prim = m.group(1) or m.group(2)
+            line = nc.count("\n", 0, m.start()) + 1
+            enc = enclosing(m.start())
+            if enc is None:
+                # a declaration / definition header of a helper itself is not a call
+                if re.match(r"\s*char\s*\*", nc[m.end():m.end() + 12]):
+                    continue
+                stray.append((f, line, "<file scope>", nc[m.start():m.start() + 60]))
+                continue
+            a, b, fn, params, body = enc
+            args = call_args(nc, m.end() - 1)
+            if not args:
+                stray.append((f, line, fn, nc[m.start():m.start() + 60]))
+                continue
+            dest = nows(args[0])
+            if m.group(2):      # std::string::copy(dest, n): the destination is its first argument too
+                pass
+            want = site_dst.get(fn) or helper_dst.get(fn)
+            if want is not None and dest == want:
+                continue        # one of the statements classify() sees (it mentions the destination parameter)
+            # the allocate-exactly-then-copy idiom of the API's own out-structures
+            if prim == "strcpy" and len(args) == 2:
+                srcx = nows(args[1])
+                mm = re.fullmatch(r"(.+)\.c_str\(\)", srcx)
+                if mm:
+                    e = mm.group(1)
+                    before = nows(nc[a:m.start()])
+                    if any((dest + "=newchar[" + e + "." + meth + "()+1];") in before for meth in ("length", "size")):
+                        continue
+            stray.append((f, line, fn, re.sub(r"\s+", " ", nc[m.start():match_brace(nc, m.end() - 1, "(", ")") + 1])[:120]))
+        # functions with a writable char buffer parameter that are not extracted sites / helpers
+        for a, b, name, params, body in spans:
+            pp = re.sub(r"\s+", " ", params)
+            if name in site_dst or name in helper_dst:
+                continue
+            if re.search(r"(?<!const )\bchar ?\*", pp) and re.search(r"(?<![\w])(?<!const )char ?\*+ ?\w+", re.sub(r"const char ?\*+ ?(const ?)?\w+", "", pp)):
+                stray.append((f, nc.count("\n", 0, a) + 1, name, "writable char* parameter: (" + pp[:100] + ")"))
+    return stray
+
 
 def main():
     repo = sys.argv[1] if len(sys.argv) > 1 else "/repo"
@@ -142,6 +248,11 @@ def main():
                          % (len(sites), nhelpers, raw))
         # fail closed: add an unknown site so the theorem cannot be discharged
         sites.append({"fn": "<unparsed>", "file": "?", "line": 0, "dst": "?", "size": "?", "stmts": ["Stmt.unknown"]})
+    stray = stray_copies(repo, EXTRACTED["site_dst"], EXTRACTED["helper_dst"])
+    for f, line, fn, text in stray:
+        sys.stderr.write("c20_sites: copy not accounted for by any extracted site: %s:%d in %s: %s\n" % (f, line, fn, text))
+        sites.append({"fn": "%s@%s:%d" % (fn, os.path.basename(f), line), "file": f, "line": line, "dst": "?", "size": "?",
+                      "stmts": ["Stmt.unknown"], "stray": text})
     lines = ["-- GENERATED by /verif/gen/c20_sites.py from src/rime_api_impl.h, src/rime_api.cc — do not edit",
              "import RimeModel.C20.Model", "namespace RimeModel.C20.Gen", "open RimeModel.C20", "",
              "def copySites : List Site := ["]
@@ -150,7 +261,8 @@ def main():
             s["fn"], ", ".join(s["stmts"]), "," if i + 1 < len(sites) else "", s["file"], s["line"]))
     lines += ["]", "", "end RimeModel.C20.Gen", ""]
     changed = write_if_changed(out, "\n".join(lines))
-    json.dump({"sites": sites, "independent_count": raw, "helpers": nhelpers, "changed": changed}, sys.stdout)
+    json.dump({"sites": sites, "independent_count": raw, "helpers": nhelpers, "changed": changed,
+               "stray_copies": [list(x) for x in stray]}, sys.stdout)
 
 if __name__ == "__main__":
     main()
